@@ -409,6 +409,10 @@ class LenClass:
                 if shp.op == "Cfg":
                     return ("EV", ("count", shp.id))
             return TOP
+        if short in ("logical_and.reduce", "logical_or.reduce", "logical_xor.reduce", "add.reduce", "multiply.reduce",
+                     "maximum.reduce", "minimum.reduce") and pos and pos[0].op in ("Tuple", "List") and \
+                (kws.get("axis") is None or (kws["axis"].op == "Const" and kws["axis"].attr == 0)):
+            return self._joinall(pos[0].args, n, "arrays reduced element-wise")     # reduce over the tuple of arrays
         if short == "reshape" and len(pos) == 2 and self._column_shape([pos[1]]):
             return self.of(pos[0])
         if short == "expand_dims" and pos:
